@@ -169,7 +169,10 @@ func VerifHarness_C02_ReferenceElement() {
 func VerifHarness_C02_ChoicesAndPrimitiveValues() {
 	o := &opb.Observation{}
 	var values, compValues []any
-	switch verifrt.Choose("value", 4) {
+	switch verifrt.Choose("value", 5) {
+	case 4:
+		// an allocated wrapper that holds no choice (a state only the proto has): the JSON has no value[x], so nothing is yielded
+		o.Value = &opb.Observation_ValueX{}
 	case 1:
 		q := &dtpb.Quantity{Value: &dtpb.Decimal{Value: "1.5"}}
 		o.Value, values = &opb.Observation_ValueX{Choice: &opb.Observation_ValueX_Quantity{Quantity: q}}, []any{q}
